@@ -15,8 +15,51 @@ def main():
     s = open(p).read()
     a, b = s.index("<!-- SENS-BEGIN -->"), s.index("<!-- SENS-END -->")
     s = s[: a + len("<!-- SENS-BEGIN -->")] + "\n" + buf.getvalue() + s[b:]
+    if "<!-- AST-BEGIN -->" in s:
+        a, b = s.index("<!-- AST-BEGIN -->"), s.index("<!-- AST-END -->")
+        s = s[: a + len("<!-- AST-BEGIN -->")] + "\n" + ast_tables() + s[b:]
     open(p, "w").write(s)
     print("DESIGN.md tables refreshed")
+
+
+def ast_tables():
+    import json
+    from collections import Counter
+
+    d = os.path.join(env.VERIF_ROOT, "vt", "mutants")
+    res = json.load(open(os.path.join(d, "ast_results.json")))
+    tri = json.load(open(os.path.join(d, "ast_triage.json")))
+    per = {}
+    for k, v in res.items():
+        f = k.split("::")[0]
+        c = per.setdefault(f, Counter())
+        c["n"] += 1
+        if v["status"] == "caught":
+            c["caught"] += 1
+            c["by_" + v["caught_by"]] += 1
+        else:
+            c["survived"] += 1
+    out = ["| file | mutants | caught by a quick tier | survived | first check to fire (count) |", "|---|---|---|---|---|"]
+    for f in sorted(per):
+        c = per[f]
+        by = ", ".join(f"{k[3:]} ({n})" for k, n in sorted(c.items()) if k.startswith("by_"))
+        out.append(f"| `{f}` | {c['n']} | {c['caught']} | {c['survived']} | {by} |")
+    tot = Counter()
+    for c in per.values():
+        tot.update({k: v for k, v in c.items() if k in ("n", "caught", "survived")})
+    out.append(f"| **total** | {tot['n']} | {tot['caught']} | {tot['survived']} | |")
+    out.append("")
+    out.append("| surviving mutant | repository suite | verdict | why |")
+    out.append("|---|---|---|---|")
+    for k in sorted(res):
+        v = res[k]
+        if v["status"] == "caught":
+            continue
+        verdict, why = tri.get(k, ["UNTRIAGED", ""])
+        tests = v.get("repo_tests", "")
+        tests = "passes" if tests.startswith("14051 passed") else tests.split(",")[0]
+        out.append(f"| `{k}` | {tests} | {verdict} | {why} |")
+    return "\n".join(out) + "\n"
 
 
 if __name__ == "__main__":
